@@ -191,8 +191,10 @@ let do_layout () =
   pr "%s sym %s\n" id (Buffer.contents bs)
 
 (* ---------- WMEM / WAFV: the token grids of the membership and affinity writers, from the MODEL's writer functions
-   (CliModel.membership_rows / affinity_rows) with fmt := printf "%.6g" ---------- *)
-let g6 (x : Float64.t) : string = let y = fl x in if y <> y then "nan" else Printf.sprintf "%.6g" y
+   (CliModel.membership_rows / affinity_rows) with fmt := FmtG.fmt_g6 ---------- *)
+(* operator<<(double), precision 6: the MODEL's FmtG.fmt_g6 (exact decimal rendering in Coq), not OCaml's printf *)
+let g6 (x : Float64.t) : string =
+  String.concat "" (List.map (fun b -> String.make 1 (Char.chr (match b with N0 -> 0 | Npos p -> let rec ip = function XH -> 1 | XO q -> 2 * ip q | XI q -> 2 * ip q + 1 in ip p))) (fmt_g6 x))
 let lit_words = function 0 -> "?" | 1 -> "a=" | _ -> "?"
 let do_wmem () =
   let id = "M " ^ tok () in
@@ -312,7 +314,6 @@ let c_stoi (s : string) : int option =
   else let x = if neg then - !v else !v in if x > 2147483647 || x < -2147483648 then None else Some x
 let words = [| "?"; "a="; "#"; "Max"; "likelihood="; "N_real="; "Number"; "of"; "realization"; "="; "Maximum"; "Likelihood"; "Duration"; "(s)";
                "Seed"; "real"; "num_iters"; "term_reason"; "L2" |]
-let g6 (x : Float64.t) : string = let y = fl x in if y <> y then "nan" else Printf.sprintf "%.6g" y
 (* static_cast<int>(double) as x86-64 performs it (cvttsd2si: the indefinite value for NaN and out-of-range) *)
 let int_cast (x : Float64.t) : string =
   let y = fl x in if y <> y || y >= 2147483648.0 || y <= -2147483649.0 then "-2147483648" else string_of_int (int_of_float y)
